@@ -225,6 +225,119 @@ Definition kw_dict (kws : list (string * val)) : val := VDict (map (fun kv => (V
 Fixpoint dict_kws (d : list (val * val)) : res (list (string * val)) :=
   match d with [] => Ok [] | (VStr k, v) :: t => do r <- dict_kws t; Ok ((k, v) :: r) | _ => Exc "TypeError" end.
 
+(* writing through an l-value path; [ev] is the expression evaluator at the current fuel *)
+Fixpoint assign (ev : expr -> env -> world -> res (val * world)) (fu : nat) (t : expr) (v : val) (ρ : env) (w : world)
+         {struct fu} : res (env * world) :=
+  match fu with O => Stuck "fuel" | S fu' =>
+  match t with
+  | EName x => Ok (update x v ρ, w)
+  | ETuple ts =>
+      match v with
+      | VTuple vs | VList vs =>
+          (fix go (ts : list expr) (vs : list val) (ρ : env) (w : world) : res (env * world) :=
+             match ts, vs with
+             | [], [] => Ok (ρ, w)
+             | t1 :: tr, v1 :: vr => do r <- assign ev fu' t1 v1 ρ w; go tr vr (fst r) (snd r)
+             | _, _ => Exc "ValueError" end) ts vs ρ w
+      | _ => Exc "TypeError" end
+  | ESub c i =>
+      do cw <- ev c ρ w; do iw <- ev i ρ (snd cw);
+      do c' <- set_item (fst cw) (fst iw) v; assign ev fu' c c' ρ (snd iw)
+  | EAttr o a =>
+      do ow <- ev o ρ w;
+      match fst ow with
+      | VObj cls fs => assign ev fu' o (VObj cls (field_set a v fs)) ρ (snd ow)
+      | _ => Stuck "attr assign" end
+  | _ => Stuck "assign target"
+  end end.
+
+(* one iteration of `for t in it: body` *)
+Definition for_step (ev : expr -> env -> world -> res (val * world))
+           (ex : list stmt -> env -> world -> res (outcome * world)) (fu : nat)
+           (t it : expr) (body : list stmt) (x : val) (idx : Z) (ρ : env) (w : world) : res (outcome * world) :=
+  do a <- assign ev fu t x ρ w;
+  do ow <- ex body (fst a) (snd a);
+  match fst ow with
+  | OReturn v => Ok (OReturn v, snd ow)
+  | ONormal ρ' =>
+      (* aliasing idiom `for d in L: d[k] = ...` : write the element back *)
+      match it, t with
+      | EName L, EName xn =>
+          match lookup L ρ', lookup xn ρ' with
+          | Some (VList l), Some (VDict dnew) =>
+              match list_set l (Z.to_nat idx) (VDict dnew) with
+              | Some l' => Ok (ONormal (update L (VList l') ρ'), snd ow)
+              | None => Ok ow end
+          | _, _ => Ok ow end
+      | _, _ => Ok ow end
+  end.
+
+(* the for-loop as a named combinator, so that statements for every iteration count go by induction *)
+Fixpoint iter_loop (step : val -> Z -> env -> world -> res (outcome * world))
+         (items : list val) (idx : Z) (ρ : env) (w : world) {struct items} : res (outcome * world) :=
+  match items with
+  | [] => Ok (ONormal ρ, w)
+  | x :: r =>
+      do ow <- step x idx ρ w;
+      match fst ow with
+      | OReturn v => Ok (OReturn v, snd ow)
+      | ONormal ρ' => iter_loop step r (idx + 1)%Z ρ' (snd ow)
+      end
+  end.
+
+(* one statement, given the evaluators of the enclosing fuel level *)
+Definition exec_stmt (ev : expr -> env -> world -> res (val * world))
+           (ex : list stmt -> env -> world -> res (outcome * world)) (fu : nat)
+           (s : stmt) (ρ : env) (w : world) : res (outcome * world) :=
+  let assign_ := assign ev fu in
+  let norm (r : res (env * world)) : res (outcome * world) := do x <- r; Ok (ONormal (fst x), snd x) in
+  match s with
+  | SPass => Ok (ONormal ρ, w)
+  | SAssign t (ECall (EAttr recv "pop") [k] []) | SAssign t (ECall (EAttr recv "pop") [k; _] []) =>
+      (* x = d.pop(k[, default]) : value and the shrunken dict written back into recv *)
+      do rw <- ev recv ρ w; do kw <- ev k ρ (snd rw);
+      match fst rw with
+      | VDict d =>
+          do dflt <- match s with
+                     | SAssign _ (ECall _ [_; de] _) => do r <- ev de ρ (snd kw); Ok (Some (fst r))
+                     | _ => Ok None end;
+          match dict_get (fst kw) d, dflt with
+          | Some v, _ => do r1 <- assign_ recv (VDict (dict_del (fst kw) d)) ρ (snd kw); norm (assign_ t v (fst r1) (snd r1))
+          | None, Some dv => norm (assign_ t dv ρ (snd kw))
+          | None, None => Exc "KeyError" end
+      | _ => Stuck "pop receiver" end
+  | SAssign t e => do vw <- ev e ρ w; norm (assign_ t (fst vw) ρ (snd vw))
+  | SAug o t e =>
+      do cur <- ev t ρ w; do vw <- ev e ρ (snd cur); do nv <- do_binop o (fst cur) (fst vw) (snd vw);
+      norm (assign_ t (fst nv) ρ (snd nv))
+  | SExpr (ECall (EAttr recv "append") [a] []) =>
+      do rw <- ev recv ρ w; do aw <- ev a ρ (snd rw);
+      match fst rw with
+      | VList l => norm (assign_ recv (VList (l ++ [fst aw])%list) ρ (snd aw))
+      | _ => Stuck "append receiver" end
+  | SExpr e => do vw <- ev e ρ w; Ok (ONormal ρ, snd vw)
+  | SIf c t e => do cw <- ev c ρ w; do b <- m_truthy (fst cw) (snd cw); ex (if fst b then t else e) ρ (snd b)
+  | SFor t it body =>
+      do iw <- ev it ρ w; do items <- as_list (fst iw);
+      iter_loop (for_step ev ex fu t it body) items 0%Z ρ (snd iw)
+  | SReturn None => Ok (OReturn VNone, w)
+  | SReturn (Some e) => do vw <- ev e ρ w; Ok (OReturn (fst vw), snd vw)
+  | SRaise k => Exc k
+  | STry body handler =>
+      match ex body ρ w with
+      | Ok ow => Ok ow
+      | Exc _ => ex handler ρ w
+      | Stuck m => Stuck m | Need P => Need P end
+  | SUnsupported m => Stuck ("unsupported stmt: " ++ m)
+  end.
+Fixpoint run_stmts (step : stmt -> env -> world -> res (outcome * world)) (ss : list stmt) (ρ : env) (w : world)
+         {struct ss} : res (outcome * world) :=
+  match ss with
+  | [] => Ok (ONormal ρ, w)
+  | s :: rest => do ow <- step s ρ w;
+                 match fst ow with ONormal ρ' => run_stmts step rest ρ' (snd ow) | OReturn v => Ok (OReturn v, snd ow) end
+  end.
+
 Section Interp.
 Variable G : fenv.
 
@@ -333,94 +446,5 @@ with call (fuel : nat) (c : callee) (self : option val) (args : list val) (kws :
   end end
 
 with exec (fuel : nat) (ss : list stmt) (ρ : env) (w : world) {struct fuel} : res (outcome * world) :=
-  match fuel with O => Stuck "fuel" | S f =>
-  match ss with
-  | [] => Ok (ONormal ρ, w)
-  | s :: rest =>
-      let continue_ (r : res (outcome * world)) : res (outcome * world) :=
-        do ow <- r; match fst ow with ONormal ρ' => exec f rest ρ' (snd ow) | OReturn v => Ok (OReturn v, snd ow) end in
-      (* read / write an l-value path *)
-      let assign := fix assign (fu : nat) (t : expr) (v : val) (ρ : env) (w : world) {struct fu} : res (env * world) :=
-        match fu with O => Stuck "fuel" | S fu' =>
-        match t with
-        | EName x => Ok (update x v ρ, w)
-        | ETuple ts =>
-            match v with
-            | VTuple vs | VList vs =>
-                (fix go (ts : list expr) (vs : list val) (ρ : env) (w : world) : res (env * world) :=
-                   match ts, vs with
-                   | [], [] => Ok (ρ, w)
-                   | t1 :: tr, v1 :: vr => do r <- assign fu' t1 v1 ρ w; go tr vr (fst r) (snd r)
-                   | _, _ => Exc "ValueError" end) ts vs ρ w
-            | _ => Exc "TypeError" end
-        | ESub c i =>
-            do cw <- eval f c ρ w; do iw <- eval f i ρ (snd cw);
-            do c' <- set_item (fst cw) (fst iw) v; assign fu' c c' ρ (snd iw)
-        | EAttr o a =>
-            do ow <- eval f o ρ w;
-            match fst ow with
-            | VObj cls fs => assign fu' o (VObj cls (field_set a v fs)) ρ (snd ow)
-            | _ => Stuck "attr assign" end
-        | _ => Stuck "assign target"
-        end end in
-      match s with
-      | SPass => exec f rest ρ w
-      | SAssign t (ECall (EAttr recv "pop") [k] []) | SAssign t (ECall (EAttr recv "pop") [k; _] []) =>
-          (* x = d.pop(k[, default]) : value and the shrunken dict written back into recv *)
-          do rw <- eval f recv ρ w; do kw <- eval f k ρ (snd rw);
-          match fst rw with
-          | VDict d =>
-              do dflt <- match s with
-                         | SAssign _ (ECall _ [_; de] _) => do r <- eval f de ρ (snd kw); Ok (Some (fst r))
-                         | _ => Ok None end;
-              match dict_get (fst kw) d, dflt with
-              | Some v, _ => do r1 <- assign f recv (VDict (dict_del (fst kw) d)) ρ (snd kw); continue_ (do r2 <- assign f t v (fst r1) (snd r1); Ok (ONormal (fst r2), snd r2))
-              | None, Some dv => continue_ (do r2 <- assign f t dv ρ (snd kw); Ok (ONormal (fst r2), snd r2))
-              | None, None => Exc "KeyError" end
-          | _ => Stuck "pop receiver" end
-      | SAssign t e => do vw <- eval f e ρ w; continue_ (do r <- assign f t (fst vw) ρ (snd vw); Ok (ONormal (fst r), snd r))
-      | SAug o t e =>
-          do cur <- eval f t ρ w; do vw <- eval f e ρ (snd cur); do nv <- do_binop o (fst cur) (fst vw) (snd vw);
-          continue_ (do r <- assign f t (fst nv) ρ (snd nv); Ok (ONormal (fst r), snd r))
-      | SExpr (ECall (EAttr recv "append") [a] []) =>
-          do rw <- eval f recv ρ w; do aw <- eval f a ρ (snd rw);
-          match fst rw with
-          | VList l => continue_ (do r <- assign f recv (VList (l ++ [fst aw])%list) ρ (snd aw); Ok (ONormal (fst r), snd r))
-          | _ => Stuck "append receiver" end
-      | SExpr e => do vw <- eval f e ρ w; exec f rest ρ (snd vw)
-      | SIf c t e => do cw <- eval f c ρ w; do b <- m_truthy (fst cw) (snd cw); continue_ (exec f (if fst b then t else e) ρ (snd b))
-      | SFor t it body =>
-          do iw <- eval f it ρ w; do items <- as_list (fst iw);
-          continue_ ((fix loop (items : list val) (idx : Z) (ρ : env) (w : world) : res (outcome * world) :=
-             match items with
-             | [] => Ok (ONormal ρ, w)
-             | x :: r =>
-                 do a <- assign f t x ρ w;
-                 do ow <- exec f body (fst a) (snd a);
-                 match fst ow with
-                 | OReturn v => Ok (OReturn v, snd ow)
-                 | ONormal ρ' =>
-                     (* aliasing idiom `for d in L: d[k] = ...` : write the element back *)
-                     match it, t with
-                     | EName L, EName xn =>
-                         match lookup L ρ', lookup xn ρ' with
-                         | Some (VList l), Some (VDict dnew) =>
-                             match list_set l (Z.to_nat idx) (VDict dnew) with
-                             | Some l' => loop r (idx + 1)%Z (update L (VList l') ρ') (snd ow)
-                             | None => loop r (idx + 1)%Z ρ' (snd ow) end
-                         | _, _ => loop r (idx + 1)%Z ρ' (snd ow) end
-                     | _, _ => loop r (idx + 1)%Z ρ' (snd ow) end
-                 end
-             end) items 0%Z ρ (snd iw))
-      | SReturn None => Ok (OReturn VNone, w)
-      | SReturn (Some e) => do vw <- eval f e ρ w; Ok (OReturn (fst vw), snd vw)
-      | SRaise k => Exc k
-      | STry body handler =>
-          match exec f body ρ w with
-          | Ok ow => continue_ (Ok ow)
-          | Exc _ => continue_ (exec f handler ρ w)
-          | Stuck m => Stuck m | Need P => Need P end
-      | SUnsupported m => Stuck ("unsupported stmt: " ++ m)
-      end
-  end end.
+  match fuel with O => Stuck "fuel" | S f => run_stmts (exec_stmt (eval f) (exec f) f) ss ρ w end.
 End Interp.
